@@ -245,6 +245,7 @@ def task_tiny_opt(a, env):
     big = [order * 1000 + 1, order * 1000 + 7, 2 ** 64 + 5, (2 ** 64 + 5) * order + 3]
     g = rng(env, "tinymul")
     big.append(g.getrandbits(640) | (1 << 639))
+    big += [2 ** 61 - 1 + 1, 2 ** 61 - 1 + 2, 3 + 7 * (2 ** 61 - 1)]  # equal hash() as 1, 2, 3
     ns_small = list(range(0, 2 * order + 3))
     for ip, Pa in enumerate(pts):
         # large scalars: every point over prime fields; the first two points over extensions
